@@ -45,6 +45,14 @@ LONG_WITH_ARG = frozenset({"unset", "chdir", "split-string"})
 SHORT_WITH_ARG = "uCS"
 
 
+def _split_string(value: str, rest: list[str]) -> Classification:
+    """env -S STRING WORD...: the string is a command line, the words follow it."""
+    # env ends the string at a "#" comment; the words after it still run
+    if "#" in value:
+        return Classification("ask", description="env -S")
+    return Classification("delegate", inner_command=" ".join([value] + rest))
+
+
 def classify(ctx: HandlerContext) -> Classification:
     """Classify env command by extracting the inner command."""
     tokens = ctx.tokens
@@ -77,8 +85,7 @@ def classify(ctx: HandlerContext) -> Classification:
             i += 1
             # --split-string: the argument is itself a command line
             if names[0] == "split-string":
-                rest = " ".join([value] + tokens[i:])
-                return Classification("delegate", inner_command=rest)
+                return _split_string(value, tokens[i:])
             continue
 
         if token.startswith("-") and len(token) > 1:
@@ -95,8 +102,7 @@ def classify(ctx: HandlerContext) -> Classification:
                     value = tokens[i]
                     i += 1
                 if token[k] == "S":
-                    rest = " ".join([value] + tokens[i:])
-                    return Classification("delegate", inner_command=rest)
+                    return _split_string(value, tokens[i:])
             continue
 
         if token == "-":
